@@ -365,7 +365,7 @@ def run_pair(suite, ops, timeout=600):
 def split_sessions(ops):
     ses, cur = [], []
     for o in ops:
-        if o.split()[:1] in (["reset"], ["f"], ["h"], ["k"], ["d"]) and cur:      # `f` / `h` lines (suites c06, wsadmit) are self-contained
+        if o.split()[:1] in (["reset"], ["f"], ["h"], ["k"], ["d"], ["p"], ["e"]) and cur:      # `f` / `h` lines (suites c06, wsadmit) are self-contained
             ses.append(cur)
             cur = []
         cur.append(o)
